@@ -112,3 +112,228 @@ def wave_unit_lemmas():
                     ctx.oblige('C14::vegaflux.flux[%s,%s,%s]' % (band, u, vu), S.eq(back, f0))
     out.append(('C14::vegaflux_units', vega))
     return out
+
+
+# =======================================================================================
+# Spectrum objects (C13, C15)
+
+_I, _Rs = z3.IntSort(), z3.RealSort()
+INTERP = z3.Function('spectrum_interp', _I, _I, _Rs, _Rs, _Rs)      # spectrum state id, method id, fill, x -> value
+METHOD_ID = {'linear': 1, 'quadratic': 2, 'cubic': 3}
+
+
+def mk_spectrum(ctx, name, waveunit='nm', valueunit=None, n=None):
+    """A well-formed Spectrum (class invariant: strictly increasing positive wavelengths, one value each)."""
+    cls = ctx.world.repo.klass('lentil.radiometry.Spectrum')
+    n = n if n is not None else ctx.fresh_int(name + '.n')
+    if S.is_z3(n):
+        ctx.assume(n >= 2)
+    wave = array(ctx, name + '.wave', (n,), 'float')
+    value = array(ctx, name + '.value', (n,), 'float')
+    q = z3.Int(ctx._name('wq'))
+    ctx.assume(z3.ForAll([q], z3.Implies(z3.And(q >= 0, q < S.z(n)), S.z(wave.at((q,))) > 0)), axiom=True)
+    ctx.assume(z3.ForAll([q], z3.Implies(z3.And(q >= 0, q + 1 < S.z(n)), S.z(wave.at((q,))) < S.z(wave.at((q + 1,))))), axiom=True)
+    sp = Obj(cls, {'_wave': wave, '_value': value, '_waveunit': unit_obj(ctx, waveunit),
+                   '_valueunit': unit_obj(ctx, valueunit) if valueunit else None, '__array_priority__': Fraction(1)})
+    sp.attrs['_ghost_sid'] = ctx.fresh_int(name + '.state')
+    return sp
+
+
+def wave_setter_model(ctx, env):
+    """Spectrum.wave = value: validates (positive, increasing, unique) and stores; the validity of a
+    symbolic grid is an abstract condition here (the validation code uses numpy sort)."""
+    self, value = env['self'], A.as_array(ctx, env['value'])
+    ok = ctx.fresh_bool('wave_grid_valid')
+    ctx.__dict__.setdefault('ghost_wave_sets', []).append({'self': self, 'value': value, 'ok': ok})
+    if not ctx.branch(ok):
+        raise Raised('ValueError', 'invalid wavelength grid')
+    self.attrs['_wave'] = value
+    ctx.write_event(self, 'setattr _wave')
+    return None
+
+
+cws = contract('lentil.radiometry.Spectrum.wave.setter')
+cws.call_model = wave_setter_model
+
+
+def interp_value(ctx, sp, method, fill, x):
+    mid = METHOD_ID.get(method, 9) if isinstance(method, str) else 9
+    return INTERP(S.z(sp.attrs['_ghost_sid']), z3.IntVal(mid), S.zreal(fill), S.zreal(x))
+
+
+def sample_call_model(ctx, env):
+    """Abstract Spectrum.sample: pointwise interpolation INTERP(state, method, fill, x) of the spectrum as it
+    is; the requested wavelength unit is recorded (ghost) - the caller must pass the spectrum's own unit."""
+    self, wave = env['self'], env['wave']
+    method, fill = env.get('method', 'linear'), env.get('fill_value', 0)
+    wu = env.get('waveunit', 'nm')
+    own = ctx.world.interp.getattr(ctx, self, 'waveunit')
+    ctx.__dict__.setdefault('ghost_sample_calls', []).append({'self': self, 'waveunit': wu, 'own_unit': own, 'method': method, 'fill': fill})
+    ctx.assumptions.add('abstract:lentil.radiometry.Spectrum.sample (scipy interp1d) as a pointwise function of the wavelength')
+    if '_ghost_sid' not in self.attrs:
+        self.attrs['_ghost_sid'] = ctx.fresh_int('sp.state')
+    f = lambda x: interp_value(ctx, self, method, fill, x)
+    if isinstance(wave, A.Gather):
+        return wave.map(f)
+    if isinstance(wave, Arr):
+        return A.elementwise(ctx, f, [wave], dtype='float')
+    if isinstance(wave, (PyList, tuple)):
+        return A.elementwise(ctx, f, [A.as_array(ctx, wave)], dtype='float')
+    return f(wave)
+
+
+cs = contract('lentil.radiometry.Spectrum.sample')
+cs.call_model = sample_call_model
+
+
+def integrate_call_model(ctx, env):
+    ctx.assumptions.add('abstract:lentil.radiometry.Spectrum.integrate at this call site')
+    v = ctx.fresh_real('integral')
+    ctx.__dict__.setdefault('ghost_integrate_calls', []).append(dict(env, out=v))
+    return v
+
+
+ci = contract('lentil.radiometry.Spectrum.integrate')
+ci.call_model = integrate_call_model
+
+
+def method(ctx, sp, name):
+    return sp.cls.find(ctx.world.repo, name)
+
+
+def spectrum_lemmas():
+    out = []
+
+    def ufunc_scalar(ctx):
+        """Operations with a scalar act element-wise on the unchanged wavelength grid and return a new
+        spectrum in the same units; the operand is not written."""
+        interp = ctx.world.interp
+        for opname in ('add', 'subtract', 'multiply', 'divide'):
+            sp = mk_spectrum(ctx, 'a')
+            k = ctx.fresh_real('k')
+            if opname == 'divide':
+                ctx.assume(k != 0)
+            n0 = len(ctx.events)
+            try:
+                res = interp.call_function(ctx, method(ctx, sp, opname), [sp, k], {})
+            except Raised as r:
+                # the result grid is the operand's (valid) grid: a refusal can only come from the abstract validity
+                continue
+            n = sp.attrs['_wave'].shape[0]
+            i, = ints(ctx, 'i')
+            f = {'add': S.add, 'subtract': S.sub, 'multiply': S.mul, 'divide': S.truediv}[opname]
+            hyp = z3.And(i >= 0, i < S.z(n))
+            ctx.oblige('C13::Spectrum.%s(scalar).elementwise' % opname, z3.Implies(hyp, z3.And(
+                S.z(S.eq(res.attrs['_value'].at((i,)), f(sp.attrs['_value'].at((i,)), k))),
+                S.z(S.eq(res.attrs['_wave'].at((i,)), sp.attrs['_wave'].at((i,)))))))
+            ctx.oblige('C13::Spectrum.%s(scalar).new_object_same_units' % opname,
+                       res is not sp and interp.getattr(ctx, res, 'waveunit') == 'nm' and interp.getattr(ctx, res, 'valueunit') is None)
+            ctx.oblige('C13::Spectrum.%s(scalar).operand_untouched' % opname,
+                       not [d for (t, d) in ctx.events[n0:] if t is sp or t is sp.attrs['_wave'].cell or t is sp.attrs['_value'].cell])
+    out.append(('C13::scalar_operations', ufunc_scalar))
+
+    def interp_common(units):
+        u1, u2 = units
+
+        def lemma(ctx):
+            """_interp_common(s1, s2): a uniform grid from the smaller to the larger end of the two ranges with
+            step (max - min)/ceil((max - min)/d) <= d (d = finest spacing of either operand, or the requested
+            sampling); each operand contributes its interpolated value where the grid point lies inside its
+            range and the fill value elsewhere; both operands are sampled in the first operand's unit, an operand
+            given in another unit is converted on a COPY (the caller's object is not written)."""
+            interp = ctx.world.interp
+            s1, s2 = mk_spectrum(ctx, 's1', u1), mk_spectrum(ctx, 's2', u2)
+            fill = ctx.fresh_real('fill')
+            func = ctx.world.repo.function('lentil.radiometry._interp_common')
+            n0 = len(ctx.events)
+            try:
+                grid, v1, v2 = interp.call_function(ctx, func, [s1, s2, 'min', 'linear', fill], {})
+            except Raised as r:
+                ctx.oblige('C13::_interp_common[%s,%s].refusal_only_from_grid_validation' % units,
+                           r.exc == 'ValueError' and bool(ctx.__dict__.get('ghost_wave_sets')))
+                return
+            calls = ctx.__dict__.get('ghost_sample_calls', [])
+            ctx.oblige('C13::_interp_common[%s,%s].two_sample_calls' % units, len(calls) == 2)
+            for k, c_ in enumerate(calls):
+                ctx.oblige('C13::_interp_common[%s,%s].operand_%d_sampled_in_its_own_unit' % (u1, u2, k + 1),
+                           c_['waveunit'] == c_['own_unit'] and c_['own_unit'] == u1,
+                           info={'requested': str(c_['waveunit']), 'own': str(c_['own_unit'])})
+            touched = [d for (t, d) in ctx.events[n0:] if t is s2 or t is s1 or t is s2.attrs['_wave'].cell or t is s2.attrs['_value'].cell]
+            ctx.oblige('C13::_interp_common[%s,%s].operands_not_written' % units, not touched, info={'writes': touched[:3]})
+            if len(calls) != 2:
+                return
+            w1 = s1.attrs['_wave']
+            w2 = calls[1]['self'].attrs['_wave']          # s2 itself, or its converted copy
+            lo = S.min_(ctx.ghost_min[id(w1.cell)] if False else _amin(ctx, w1), _amin(ctx, w2))
+            hi = S.max_(_amax(ctx, w1), _amax(ctx, w2))
+            num = grid.shape[0]
+            i, = ints(ctx, 'i')
+            hyp = [i >= 0, S.z(S.lt(i, num))]
+            step = S.truediv(S.sub(hi, lo), S.sub(num, 1))
+            with_hyp_(ctx, hyp + [S.z(S.gt(num, 1))], lambda: ctx.oblige(
+                'C13::_interp_common[%s,%s].uniform_grid_spanning_the_union' % units,
+                S.eq(grid.at((i,)), S.add(lo, S.mul(step, i)))))
+            for k, (vv, sp, ww) in enumerate(((v1, calls[0]['self'], w1), (v2, calls[1]['self'], w2))):
+                g = grid.at((i,))
+                inside = S.and_(S.ge(g, _amin(ctx, ww)), S.le(g, _amax(ctx, ww)))
+                want = S.ite(inside, interp_value(ctx, sp, 'linear', fill, g), fill)
+                with_hyp_(ctx, hyp, lambda vv=vv, want=want, k=k: ctx.oblige(
+                    'C13::_interp_common[%s,%s].operand_%d_interpolated_inside_fill_outside' % (u1, u2, k + 1),
+                    S.eq(vv.at((i,)), want)))
+        return ('C13::_interp_common[%s,%s]' % units, lemma)
+    out.append(interp_common(('nm', 'nm')))
+    out.append(interp_common(('um', 'um')))
+    out.append(interp_common(('nm', 'um')))
+    out.append(interp_common(('um', 'angstrom')))
+
+    def grid_step(ctx):
+        """num = ceil((max - min)/d) intervals: the step (max - min)/num does not exceed the requested d."""
+        lo, hi, d = ctx.fresh_real('lo'), ctx.fresh_real('hi'), ctx.fresh_real('d')
+        ctx.assume(z3.And(hi > lo, d > 0))
+        num = S.ceil_(S.truediv(S.sub(hi, lo), d))
+        ctx.oblige('C13::common_grid.step_at_most_requested_sampling', z3.And(S.z(S.ge(num, 1)), S.z(S.le(S.truediv(S.sub(hi, lo), num), d))))
+    out.append(('C13::common_grid_step', grid_step))
+
+    def binary_ops(ctx):
+        """A binary operation between two spectra applies the operator to the two interpolated value vectors
+        on the common grid and returns a new spectrum in the first operand's units; add / multiply are
+        symmetric in their operands (commutative) because the common grid is."""
+        interp = ctx.world.interp
+        s1, s2 = mk_spectrum(ctx, 's1', 'nm'), mk_spectrum(ctx, 's2', 'nm')
+        for opname in ('add', 'multiply'):
+            ctx.ghost_sample_calls = []
+            try:
+                r12 = interp.call_function(ctx, method(ctx, s1, opname), [s1, s2], {})
+                r21 = interp.call_function(ctx, method(ctx, s2, opname), [s2, s1], {})
+            except Raised:
+                continue
+            i, = ints(ctx, 'i')
+            n = r12.attrs['_wave'].shape[0]
+            from lvc.prove import oblige_equal
+            with_hyp_(ctx, [i >= 0, S.z(S.lt(i, n)), S.z(S.eq(n, r21.attrs['_wave'].shape[0]))], lambda: (
+                oblige_equal(ctx, 'C13::Spectrum.%s.commutative.value' % opname, r12.attrs['_value'].at((i,)), r21.attrs['_value'].at((i,))),
+                oblige_equal(ctx, 'C13::Spectrum.%s.commutative.wave' % opname, r12.attrs['_wave'].at((i,)), r21.attrs['_wave'].at((i,)))))
+            ctx.oblige('C13::Spectrum.%s.new_object' % opname, r12 is not s1 and r12 is not s2)
+    out.append(('C13::binary_operations', binary_ops))
+    return out
+
+
+def with_hyp_(ctx, hyps, fn):
+    from lvc.prove import with_hyp
+    return with_hyp(ctx, hyps, fn)
+
+
+def _amin(ctx, a):
+    key = ('min', a.cell.id)
+    cache = ctx.__dict__.setdefault('_minmax', {})
+    if key not in cache:
+        cache[key] = L._max_symbolic(ctx, a, 'min') if S.is_z3(a.shape[0]) else L.np_min(ctx, a)
+    return cache[key]
+
+
+def _amax(ctx, a):
+    key = ('max', a.cell.id)
+    cache = ctx.__dict__.setdefault('_minmax', {})
+    if key not in cache:
+        cache[key] = L._max_symbolic(ctx, a, 'max') if S.is_z3(a.shape[0]) else L.np_max(ctx, a)
+    return cache[key]
